@@ -5,6 +5,7 @@ import (
 	"errors"
 	"fmt"
 	"os"
+	"path/filepath"
 	"strings"
 	"testing"
 
@@ -93,6 +94,16 @@ func runS1(t *testing.T, spec s1Spec) {
 		}
 		ev.Write(failed)
 	}()
+	// regression tier: saved minimal scripts of earlier findings, run without the generator
+	for _, rs := range loadRegress(spec.Prop, spec.Test) {
+		r, err := vh.RunScript(rs, spec.Facets, known, spec.FinalQuiesce)
+		ev.Class("regress-script", 1)
+		ev.Case(sigOf(r), true, nil, func() any { return rs })
+		if err != nil && !errors.Is(err, vh.ErrAbort) {
+			lastFail, lastMsg = rs, err.Error()
+			t.Fatalf("%s (regression script): %v", spec.Prop, err)
+		}
+	}
 	rapid.Check(t, func(rt *rapid.T) {
 		s := vh.GenScript(rt, spec.Profile)
 		r, err := vh.RunScript(s, spec.Facets, known, spec.FinalQuiesce)
@@ -119,6 +130,34 @@ func runS1(t *testing.T, spec s1Spec) {
 			rt.Fatalf("%s: %v", spec.Prop, err)
 		}
 	})
+}
+
+func loadRegress(prop, test string) []*vh.Script {
+	dir := os.Getenv("VERIF_REGRESS")
+	if dir == "" {
+		dir = "/verif/regress"
+	}
+	ents, err := os.ReadDir(filepath.Join(dir, prop))
+	if err != nil {
+		return nil
+	}
+	var out []*vh.Script
+	for _, e := range ents {
+		b, err := os.ReadFile(filepath.Join(dir, prop, e.Name()))
+		if err != nil {
+			continue
+		}
+		var f struct {
+			Test string    `json:"test"`
+			Case vh.Script `json:"case"`
+		}
+		if json.Unmarshal(b, &f) != nil || f.Test != test {
+			continue
+		}
+		c := f.Case
+		out = append(out, &c)
+	}
+	return out
 }
 
 // replayS1 re-runs a saved script without rapid.
